@@ -219,6 +219,9 @@ func (n *Tree[V]) delNode(path string, matcher ValueMatcher[V]) bool {
 
 		if newSize == 0 {
 			n.backtrackingEnabled = true
+			// the node may stay in the tree because of its children. Without values it
+			// must not constrain the wildcard names of a path registered here later on.
+			n.wildcardKeys = nil
 		}
 
 		return oldSize != newSize
